@@ -111,21 +111,22 @@ func parseGuards(c *Ctx, rule string) {
 	p := c.P
 	fn := p.MustFunc(pkgHistory, "ParseAuditPath")
 	n, bad := 0, 0
-	eachInstr(fn, func(in ssa.Instruction) {
+	rg := p.RegionOf(fn, 2) // the key parsing may be a helper of the package
+	rg.Instrs(func(site regionSite, in ssa.Instruction) {
 		ia, ok := in.(*ssa.IndexAddr)
 		if !ok {
 			return
 		}
-		t := p.TermOf(ia.X)
+		t := rg.Term(site, ia.X)
 		if !(t.Op == "call" && t.Fn != nil && t.Fn.Name() == "Split") {
 			return
 		}
-		idx := p.TermOf(ia.Index)
+		idx := rg.Term(site, ia.Index)
 		if idx.Op == "const" && idx.Name == "0" {
 			return // Split never returns an empty slice
 		}
 		n++
-		cs := p.CondsAt(ia.Block())
+		cs := rg.Conds(regionInstr{site, in})
 		guarded := hasCond(cs, func(k Cond) bool {
 			return k.Atom.Has(func(x *Term) bool { return x.Op == "builtin" && x.Name == "len" && x.Args[0].String() == t.String() })
 		})
